@@ -380,6 +380,9 @@ func retryOracles(run *retryRun, cfg string, modelSettled, stuck, havePlan bool,
 		net := netAt(time.Now())
 		var want, got []string
 		for f, q := range net {
+			if q > int(s.broker.grantCap) {
+				q = int(s.broker.grantCap)
+			}
 			want = append(want, fmt.Sprintf("%s.%d", f, q))
 		}
 		for f, q := range s.broker.subs {
@@ -389,6 +392,31 @@ func retryOracles(run *retryRun, cfg string, modelSettled, stuck, havePlan bool,
 		sort.Strings(got)
 		if strings.Join(want, ",") != strings.Join(got, ",") {
 			v = append(v, viol("C08", "subscriptions-diverged", "broker has [%s], net effect of the application's calls is [%s]", strings.Join(got, ","), strings.Join(want, ",")))
+		}
+	}
+	// every SUBSCRIBE on the wire (first transmission, retransmission or re-subscription) asks, for each filter, for a
+	// QoS the application requested for that filter in some Subscribe call — never for what a broker happened to grant
+	{
+		asked := map[string]bool{}
+		for _, c := range calls {
+			if c.sub {
+				for _, x := range c.args {
+					asked[x] = true
+				}
+			}
+		}
+		for _, e := range s.wire {
+			if e.pkt.Type != 0x80 {
+				continue
+			}
+			for i, f := range e.pkt.Filters {
+				key := fmt.Sprintf("%s.%d", hexOrDash([]byte(f)), e.pkt.QoSs[i])
+				if !asked[key] {
+					v = append(v, viol("C08", "subscribe-qos-not-requested", "SUBSCRIBE on connection %d asks for %s, which no Subscribe call of the application requested", e.conn, key))
+					v = append(v, viol("C05", "subscribe-qos-not-requested", "SUBSCRIBE on connection %d carries %s; the application's Subscribe calls asked for other QoS values for that filter", e.conn, key))
+					break
+				}
+			}
 		}
 	}
 	spOf := map[int]bool{}
@@ -585,7 +613,11 @@ func retryOracles(run *retryRun, cfg string, modelSettled, stuck, havePlan bool,
 			if j+1 >= len(s.dialAt) {
 				break
 			}
-			want := run.base << uint(exp)
+			// min(base * 2^exp, max), computed without ever overflowing
+			want := run.base
+			for k := 0; k < exp && want < run.max; k++ {
+				want *= 2
+			}
 			if want > run.max {
 				want = run.max
 			}
